@@ -23,6 +23,7 @@ Required == {"nt_point",          \* W z = W^-T s (= lambda)
              "wtw_z_is_s",        \* (W^T W) z = s
              "w_winv", "winv_w", "wt_winvt",        \* multiplication by W and by its inverse are mutually inverse
              "transpose_w", "transpose_winv",       \* <W x, y> = <x, W^T y>, same for the inverse
+             "strategy_independent",                          \* the dual strategy (and mu) change nothing for a symmetric cone
              "mul_w_accumulates", "mul_winv_accumulates",   \* out = alpha op(x) + beta out, for beta # 0 too
              "mul_hs_is_wtw",     \* ... and both are W^T W
              "circ_definition", "circ_commutes",    \* the Jordan product, by its definition in each algebra
